@@ -241,7 +241,7 @@ theorem step_ident (cfg : Cfg) (s : St) (e : Ev) : ∀ c' ∈ (step cfg s e).1.c
     · cases r with
       | err e => exact old (IK_andThen (rejoinAfterError_ik cfg { s with jpc := .idle } e) (fun _ => IK_frame rfl)) rfl
       | ok m g l n =>
-        simp only []
+        simp only [abandonHb_eq, andThen_fst, andThen_snd]
         split
         · exact same _
         · split <;> exact same _
